@@ -156,9 +156,14 @@ def run_oracle(exe, lines, timeout=180, env=None, tscale=1):
                     pre.append(lines[k])
                     break
         # keep sticky mode lines
+        # wall-clock budget of a chunk: scaled by the machine load (a busy machine must not turn slowness into a "hang")
+        try:
+            lf = max(1.0, os.getloadavg()[0] / (os.cpu_count() or 1))
+        except OSError:
+            lf = 1.0
         try:
             p = subprocess.run([exe], input="\n".join(pre + chunk) + "\n", stdout=subprocess.PIPE, stderr=subprocess.PIPE,
-                               text=True, timeout=tscale * min(timeout, 20 + len(chunk) // 100), env=env)
+                               text=True, timeout=lf * tscale * min(timeout, 30 + len(chunk) // 50), env=env)
         except subprocess.TimeoutExpired as te:
             class P:   # a hang is attributed to the line being processed, like a crash
                 pass
@@ -176,6 +181,34 @@ def run_oracle(exe, lines, timeout=180, env=None, tscale=1):
         if len(got) >= len(chunk):
             outs.extend(got[:len(chunk)])
             pos = len(lines)
+        elif p.returncode == -99 and len(got) < len(chunk):
+            # the budget ran out: before a hang is attributed to the line being processed, that line is run alone with a generous
+            # budget; if it completes the chunk was merely slow and execution continues behind it
+            ok = got[:-1] if (p.stdout and not p.stdout.endswith("\n")) else got
+            outs.extend(ok)
+            pos += len(ok)
+            cur = lines[pos]
+            try:
+                q = subprocess.run([exe], input="\n".join(pre + [cur]) + "\n", stdout=subprocess.PIPE, stderr=subprocess.PIPE,
+                                   text=True, timeout=lf * tscale * 120, env=env)
+                qo = q.stdout.split("\n")
+                if qo and qo[-1] == "":
+                    qo.pop()
+                qo = qo[len(pre):]
+            except subprocess.TimeoutExpired:
+                q, qo = None, []
+            if q is not None and q.returncode == 0 and len(qo) == 1:
+                outs.append(qo[0])
+                pos += 1
+                if pos > 0 and not header:
+                    pass
+            else:
+                outs.append("CRASH rc=-99 TIMEOUT(hang)")
+                pos += 1
+                crashes += 1
+                if crashes > 8:
+                    outs.extend(["CRASH too-many"] * (len(lines) - pos))
+                    break
         else:
             # partial last line belongs to the crashing op
             ok = got[:-1] if (p.stdout and not p.stdout.endswith("\n")) else got
